@@ -533,8 +533,9 @@ def dict_method(I, recv, o, name, args, kwargs, e, fr):
             # a cache lookup: MISS first (its store becomes the model of the contents), then HIT
             if I.decide(("cache-miss", o.origin[1])):
                 return dflt
-            if o.origin[1] in I.cache_model:
-                v = I.materialize(I.cache_model[o.origin[1]], o.origin[1])
+            mk = (o.origin[1], vkey(key))
+            if mk in I.cache_model:
+                v = I.materialize(I.cache_model[mk], o.origin[1])
                 o.meta.setdefault("stores", []).append((key, v, "earlier call (modelled from the miss path)"))
                 return v
             raise Unsupported(f"lookup in shared dictionary {o.origin[1]} whose contents are not modelled at {where(fr, e)}")
